@@ -243,6 +243,17 @@ func VerifyFunc(prog *Program, pk *Pkg, fc *FuncContract, tier string) (rep *Fun
 	} else if !c.allPanic() {
 		// no reachable exit: every path panics or loops forever
 	}
+	// an at-stmt assertion whose statement no longer occurs (or is unreachable) cannot be checked: report it rather than drop it
+	var lost []string
+	for text := range fc.AtStmt {
+		if !c.atStmtSeen[text] {
+			lost = append(lost, text)
+		}
+	}
+	if len(lost) > 0 && rep.Err == "" {
+		sort.Strings(lost)
+		rep.Err = "at-stmt assertion(s) attached to statements that no longer occur in the function: " + strings.Join(lost, " ; ")
+	}
 	rep.Obligs = c.obligs
 	for t := range c.trusted {
 		rep.Trusted = append(rep.Trusted, t)
